@@ -8,10 +8,17 @@ import (
 
 func vjsonScript(tag string) *bscript.Script {
 	switch vnondetLen(tag+"-kind", 0, 2+vparam("INSC", 1)) {
-	case 3: // a P2PKH inscription followed by up to two arbitrary bytes (e.g. a zero-length PUSHDATA)
+	case 3: // a P2PKH inscription followed by one of four trailers
 		s := append(bscript.Script{}, *vp2pkhScript(tag + "-ipkh")...)
 		s = append(s, 0x00, 0x63, 0x03, 0x6f, 0x72, 0x64, 0x51, 0x01, 0x41, 0x00, 0x01, 0x42, 0x68)
-		s = append(s, vnondetBytes(tag+"-trail", 0, 2)...)
+		switch vnondetLen(tag+"-trail", 0, 3) { // concrete trailers: a symbolic one forks per opcode class
+		case 1:
+			s = append(s, 0x4c, 0x00) // zero-length PUSHDATA1
+		case 2:
+			s = append(s, 0x00)
+		case 3:
+			s = append(s, 0x4c) // truncated push: the script does not decode
+		}
 		return &s
 	case 0:
 		return vp2pkhScript(tag + "-pkh")
@@ -89,7 +96,14 @@ func VH_C16_TxNodeJSON() {
 // C16-C: outputs and UTXOs, both dialects, including amounts.
 func VH_C16_OutputUTXO() {
 	sats := vnondetRange("sats", 0, vMaxSats)
-	switch vnondetLen("what", 0, 3) {
+	switch vnondetLen("what", 0, 4) {
+	case 4: // node JSON of outputs with every script kind (amount fixed: the float path is case 1)
+		o := &Output{Satoshis: 100000000, LockingScript: vjsonScript("lock")}
+		b, err := json.Marshal(o.NodeJSON())
+		vassert(err == nil, "C16: output with any script marshals (node)")
+		o2 := &Output{}
+		err = json.Unmarshal(b, o2.NodeJSON())
+		vassert(err == nil && vbytesEq(*o2.LockingScript, *o.LockingScript) && o2.Satoshis == o.Satoshis, "C16: output node JSON round trip (script kinds)")
 	case 0:
 		o := &Output{Satoshis: sats, LockingScript: vjsonScript("lock")}
 		b, err := json.Marshal(o)
@@ -98,7 +112,7 @@ func VH_C16_OutputUTXO() {
 		err = json.Unmarshal(b, &o2)
 		vassert(err == nil && o2.Satoshis == o.Satoshis && vbytesEq(*o2.LockingScript, *o.LockingScript), "C16: output library JSON round trip")
 	case 1:
-		o := &Output{Satoshis: sats, LockingScript: vjsonScript("lock")}
+		o := &Output{Satoshis: sats, LockingScript: vp2pkhScript("lock")}
 		b, err := json.Marshal(o.NodeJSON())
 		vassert(err == nil, "C16: output marshals (node)")
 		o2 := &Output{}
@@ -115,7 +129,7 @@ func VH_C16_OutputUTXO() {
 		err = json.Unmarshal(b, &u2)
 		vassert(err == nil && u2.Satoshis == u.Satoshis && u2.Vout == u.Vout && vbytesEq(u2.TxID, u.TxID) && vbytesEq(*u2.LockingScript, *u.LockingScript), "C16: utxo library JSON round trip")
 	case 3:
-		u := &UTXO{TxID: vnondetBytes("txid", 32, 32), Vout: vnondetU32("vout"), Satoshis: sats, LockingScript: vjsonScript("lock")}
+		u := &UTXO{TxID: vnondetBytes("txid", 32, 32), Vout: vnondetU32("vout"), Satoshis: sats, LockingScript: vp2pkhScript("lock")}
 		w := &UTXO{TxID: vnondetBytes("txid2", 32, 32), Vout: vnondetU32("vout2"), Satoshis: vnondetRange("sats2", 0, vMaxSats), LockingScript: vp2pkhScript("lock2")}
 		us := UTXOs{u, w}
 		b, err := json.Marshal(us.NodeJSON())
